@@ -56,7 +56,8 @@ Definition ex_cfg : config :=
   {| c_importer := fun p => if p =? 10 then Some {| p_name := 20; p_decls := [(1000, 501); (1001, 502)] |}
                             else if p =? 11 then Some {| p_name := 21; p_decls := [(1002, 503)] |} else None;
      c_globals := [(30, 504)];
-     c_allow_go := true |}.
+     c_allow_go := true;
+     c_template := true |}.
 Definition ex_prog : prog :=
   {| g_imports := [(IDefault, 10); (IDot, 11)];
      g_funcs := [40];
@@ -66,6 +67,8 @@ Example C19_example :
   check ex_cfg ex_prog = inl {| o_natives := [501; 503; 504]; o_asked := [10; 11]; o_prints := 1 |} /\
   has_go (g_body ex_prog) = true /\
   (* the same program without the option, and with an import the importer does not know *)
-  check {| c_importer := c_importer ex_cfg; c_globals := c_globals ex_cfg; c_allow_go := false |} ex_prog = inr EGoNotAvailable /\
+  check {| c_importer := c_importer ex_cfg; c_globals := c_globals ex_cfg; c_allow_go := false; c_template := true |} ex_prog = inr EGoNotAvailable /\
+  (* as a program the global is not visible *)
+  check {| c_importer := c_importer ex_cfg; c_globals := c_globals ex_cfg; c_allow_go := true; c_template := false |} ex_prog = inr EUndefined /\
   check ex_cfg {| g_imports := [(IDefault, 12)]; g_funcs := []; g_body := [] |} = inr (ECannotFindPackage 12).
 Proof. vm_compute. repeat split; reflexivity. Qed.
